@@ -609,3 +609,69 @@ def with_history(build_fn=None, warmup=None):
             return tuple(lst)
         return out
     return wrapper
+
+
+# --------------------------------------------------------------------------
+# the same computation in another interpreter (another PYTHONHASHSEED): results that are claimed
+# to be reproducible must not depend on the iteration order of str-keyed sets / dicts
+
+_CHILD_CODE = ("import sys; sys.path.insert(0, %r); from hgxverif import engine; "
+               "engine.setup_paths(); from hgxverif import common; common._child_loop()")
+_CHILDREN = {}      # hash seed -> child interpreter (started on first use, kept for the shard)
+
+
+def _child_loop():
+    """child interpreter: one JSON request {module, func, case} per line, one answer per line"""
+    import importlib
+    import json
+    import sys
+    for line in sys.stdin:
+        try:
+            req = json.loads(line)
+            fn = getattr(importlib.import_module(req["module"]), req["func"])
+            ans = {"result": fn(req["case"])}
+        except Exception as exc:       # reported to the parent, which raises HarnessError
+            ans = {"error": "%s: %s" % (type(exc).__name__, exc)}
+        sys.stdout.write("ANSWER " + json.dumps(ans) + "\n")
+        sys.stdout.flush()
+
+
+def _stop_child(p):
+    try:
+        p.stdin.close()
+        p.wait(timeout=5)
+    except Exception:  # noqa
+        p.kill()
+
+
+def in_child(module, func, case, hashseed):
+    """module.func(case) evaluated in a child interpreter started with PYTHONHASHSEED=hashseed
+    (func returns something JSON-serialisable)."""
+    import atexit
+    import json
+    import os
+    import subprocess
+    import sys
+    from .engine import VERIF_DIR, HarnessError
+    p = _CHILDREN.get(hashseed)
+    if p is None or p.poll() is not None:
+        env = dict(os.environ, PYTHONHASHSEED=str(hashseed))
+        p = subprocess.Popen([sys.executable, "-c", _CHILD_CODE % (VERIF_DIR,)],
+                             stdin=subprocess.PIPE, stdout=subprocess.PIPE,
+                             stderr=subprocess.DEVNULL, text=True, env=env, cwd=VERIF_DIR)
+        _CHILDREN[hashseed] = p
+        atexit.register(_stop_child, p)
+    try:
+        p.stdin.write(json.dumps({"module": module, "func": func, "case": case}) + "\n")
+        p.stdin.flush()
+        line = p.stdout.readline()
+        while line and not line.startswith("ANSWER "):
+            line = p.stdout.readline()
+    except OSError as exc:
+        raise HarnessError("child interpreter unreachable: %s" % (exc,))
+    if not line:
+        raise HarnessError("child interpreter ended (exit %r)" % (p.poll(),))
+    ans = json.loads(line[len("ANSWER "):])
+    if "error" in ans:
+        raise HarnessError("child interpreter failed: %s" % (ans["error"],))
+    return ans["result"]
